@@ -222,6 +222,7 @@ class C11:
     PROP = "C11"
     LEVEL = "exploration"
     RUN_S = 240
+    RUNS_FORK_THEMSELVES = True
     TIERS = {
         "quick": {"runs": 2400, "budget_s": 60, "chunk": 4, "determinism_runs": 12, "minimise_s": 30},
         "thorough": {"runs": 400000, "budget_s": 1200, "chunk": 8, "determinism_runs": 64, "minimise_s": 240},
